@@ -6,6 +6,7 @@ mod c01;
 pub mod c07;
 pub mod c04;
 pub mod c05;
+mod c08;
 mod c09;
 mod c17;
 pub mod c10;
@@ -16,6 +17,7 @@ pub fn generate(suite: &str, tier: &str, seed: u64) -> Vec<String> {
     match suite {
         "c01" => c01::generate(&mut rng, thorough),
         "c07" => c07::generate(&mut rng, thorough),
+        "c08" => c08::generate(&mut rng, thorough),
         "c09" => c09::generate_c09(&mut rng, thorough),
         "c04" => c04::generate(&mut rng, thorough),
         "c05" => c05::generate(&mut rng, thorough),
@@ -38,6 +40,9 @@ pub fn eval_more(t: &[&str]) -> String {
         return s;
     }
     if let Some(s) = c17::eval(t) {
+        return s;
+    }
+    if let Some(s) = c08::eval(t) {
         return s;
     }
     if let Some(s) = c09::eval(t) {
